@@ -45,12 +45,12 @@ static Reference* mkref(Cell* c, const char* name, Vec2 at, double rot, double m
 }
 static const Tag T1 = make_tag(1, 0), T2 = make_tag(2, 0), T3 = make_tag(4, 1), T4 = make_tag(7, 3), TL = make_tag(3, 2), TABSENT = make_tag(60, 61);
 static const Tag TH1 = make_tag(40000, 65535), TH2 = make_tag(32768, 32767), TH3 = make_tag(65535, 32768);  // 16-bit values with the top bit set
-// content variants: 0..6 hand-made (one element kind each, a full mix, high tags); 7.. = every combination of >= 2 of the five
+// content variants: 0..7 hand-made (one element kind each, a full mix, high tags, diamond dependencies); 8.. = every combination of >= 2 of the five
 // element groups {polygons, paths, labels, references A (with a dangling reference), references B (lattices + properties)}
-struct Feat { bool poly, paths, labels, refs, absent, leaf_direct, island_ref, mid_rep1, props, high; };
+struct Feat { bool poly, paths, labels, refs, absent, leaf_direct, island_ref, mid_rep1, props, high, diamond; };
 static std::vector<int> g_masks;  // element-group masks of the variants >= 7
 static void init_masks() { for (int m = 1; m < 32; m++) if (__builtin_popcount(m) >= 2) g_masks.push_back(m); }
-static const int NBASE = 7;
+static const int NBASE = 8;
 static int nvariant_all() { return NBASE + (int)g_masks.size(); }
 static Feat feat_of(int v) {
     Feat f = {};
@@ -62,6 +62,7 @@ static Feat feat_of(int v) {
         case 4: f.refs = f.absent = true; break;
         case 5: f.refs = f.leaf_direct = f.island_ref = f.mid_rep1 = f.props = true; break;
         case 6: f.high = true; break;
+        case 7: f.refs = f.leaf_direct = f.island_ref = f.diamond = true; break;  // TOPCELL -> MID, LEAF, ISLAND with LEAF shared by all: a shared dependency listed BEFORE a unique one
         default: {
             int m = g_masks[v - NBASE];
             f.poly = m & 1; f.paths = m & 2; f.labels = m & 4;
@@ -72,7 +73,7 @@ static Feat feat_of(int v) {
     return f;
 }
 static std::string variant_name(int v) {
-    static const char* n[] = {"full_mix", "polygons_only", "paths", "labels", "references", "properties_and_repetitions", "tags_above_32767"};
+    static const char* n[] = {"full_mix", "polygons_only", "paths", "labels", "references", "properties_and_repetitions", "tags_above_32767", "diamond_dependencies"};
     if (v < NBASE) return n[v];
     int m = g_masks[v - NBASE];
     std::string s = "mix";
@@ -121,6 +122,7 @@ static Library build_library(int variant, int ui, int perm) {
         if (f.leaf_direct) top->reference_array.append(mkref(leaf, NULL, Vec2{-4, 0}, 0, 1, false, 1));  // otherwise LEAF is reachable from TOPCELL only through MID
         if (f.absent) top->reference_array.append(mkref(NULL, "ABSENT_CELL", Vec2{1, 1}, 0, 1, false, 0));
         if (f.island_ref) island->reference_array.append(mkref(leaf, NULL, Vec2{0, 0}, 0, 0.5, false, 2));
+        if (f.diamond) top->reference_array.append(mkref(island, NULL, Vec2{7, -3}, 0, 1, false, 0));
     }
     if (f.high) {  // layer / datatype / texttype values that do not fit a signed 16-bit integer
         leaf->polygon_array.append(mkpoly({{0, 0}, {3, 0.5}, {1.5, 2.25}}, TH1));
